@@ -69,9 +69,6 @@ func Load(dir string, modPrefix string, overlay map[string][]byte, patterns ...s
 			continue
 		}
 		p.All = append(p.All, fn)
-		if fn.Parent() != nil {
-			continue
-		}
 		p.Funcs[p.FuncKey(fn)] = fn
 	}
 	sort.Slice(p.All, func(i, j int) bool { return p.All[i].String() < p.All[j].String() })
@@ -140,4 +137,92 @@ func (p *Program) Pos(pos token.Pos) string {
 	}
 	ps := p.Fset.Position(pos)
 	return fmt.Sprintf("%s:%d", strings.TrimPrefix(ps.Filename, "/repo/"), ps.Line)
+}
+
+// Closure returns the keys of every own function statically reachable from the roots: static callees,
+// closures, go/defer targets, and (class-hierarchy style) the own implementations of invoked interface
+// methods. Functions whose contract carries the flag given in skipFlag are not expanded.
+func (p *Program) Closure(roots []string, skip func(key string) bool) []string {
+	seen := map[string]bool{}
+	var order []string
+	var work []*ssa.Function
+	add := func(fn *ssa.Function) {
+		if fn == nil || len(fn.Blocks) == 0 {
+			return
+		}
+		if fn.Pkg == nil && fn.Parent() == nil {
+			return
+		}
+		pk := fn.Pkg
+		if pk == nil {
+			pk = fn.Parent().Pkg
+		}
+		if pk == nil || !strings.HasPrefix(pk.Pkg.Path(), p.ModPrefix) {
+			return
+		}
+		k := p.FuncKey(fn)
+		if seen[k] || p.Funcs[k] == nil {
+			return
+		}
+		seen[k] = true
+		order = append(order, k)
+		if skip != nil && skip(k) {
+			return
+		}
+		work = append(work, fn)
+	}
+	for _, r := range roots {
+		add(p.Funcs[r])
+	}
+	// own concrete types, for interface dispatch
+	var concrete []types.Type
+	for _, pk := range p.OwnPackages() {
+		sc := pk.Types.Scope()
+		for _, name := range sc.Names() {
+			if tn, ok := sc.Lookup(name).(*types.TypeName); ok {
+				if _, isIface := tn.Type().Underlying().(*types.Interface); !isIface {
+					concrete = append(concrete, tn.Type(), types.NewPointer(tn.Type()))
+				}
+			}
+		}
+	}
+	for len(work) > 0 {
+		fn := work[0]
+		work = work[1:]
+		for _, b := range fn.Blocks {
+			for _, in := range b.Instrs {
+				var c *ssa.CallCommon
+				switch x := in.(type) {
+				case *ssa.Call:
+					c = x.Common()
+				case *ssa.Go:
+					c = x.Common()
+				case *ssa.Defer:
+					c = x.Common()
+				case *ssa.MakeClosure:
+					add(x.Fn.(*ssa.Function))
+				}
+				if c == nil {
+					continue
+				}
+				if c.IsInvoke() {
+					it, ok := c.Value.Type().Underlying().(*types.Interface)
+					if !ok {
+						continue
+					}
+					for _, t := range concrete {
+						if types.Implements(t, it) {
+							if m := p.Prog.LookupMethod(t, c.Method.Pkg(), c.Method.Name()); m != nil && m.Synthetic == "" {
+								add(m)
+							}
+						}
+					}
+					continue
+				}
+				add(c.StaticCallee())
+			}
+		}
+	}
+	sort.Strings(order)
+	return order
 }
